@@ -107,7 +107,8 @@ type refEnc struct {
 	tamperPacket  func(n int, final bool, ct []byte) []byte // change a ciphertext after the authenticators were computed
 	finalOverride map[int]bool
 	noTerminator  bool
-	authShape     func(al []*mpNode) []*mpNode // reshape the authenticator list of each packet
+	authShape     func(al []*mpNode) []*mpNode  // reshape the authenticator list of each packet
+	ctOverride    func(n int, ct []byte) []byte // replace the ciphertext BEFORE the authenticators are computed
 }
 
 func (p *refEnc) macKey(i int, hh []byte) []byte {
@@ -196,6 +197,9 @@ func (p *refEnc) seal() []byte {
 		}
 		nonce := idxNonce("saltpack_ploadsb", uint64(n))
 		ct := secretbox.Seal(nil, ch, nonce, k32(p.payloadKey))
+		if p.ctOverride != nil {
+			ct = p.ctOverride(n, ct)
+		}
 		var ph []byte
 		if p.major == 1 {
 			ph = sha(hh, nonce[:], ct)
